@@ -197,3 +197,18 @@ def nprogs_of(args):
         else:
             i += 1
     return len(names)
+
+
+def boundary_update_cases():
+    """update_field / set_program with field lists around the u8 / u16 representation limits (255|256 updates, a 65536-byte
+    change-program), driven through the real Datapath handle inside new_flow and on_report"""
+    out = []
+    cfg_progs = "p1=%s" % hx(P1)
+    script = "5:RD.1 5:CR.1.10.1460.1.2.3.4.%s 5:MS.1.u:p1.1;2 X" % hx("reno")
+    for n in (0, 1, 254, 255, 256, 257, 300, 511, 512, 513, 1024):
+        fs = ";".join("%s=%d" % (hx("Cwnd" if i % 2 else "cwndcap"), i) for i in range(n)) or "-"
+        out.append("ALG %s 1 PROGS %s NF sp:p1:-,uf:%s OR uf:%s SCRIPT %s" % (hx("reno"), cfg_progs, fs, fs, script))
+    for n in (255, 256, 257, 5039, 5040, 5041, 6000):
+        fs = ";".join("%s=%d" % (hx("Rate" if i % 2 else "cwndcap"), i) for i in range(n))
+        out.append("ALG %s 1 PROGS %s NF sp:p1:%s OR - SCRIPT %s" % (hx("reno"), cfg_progs, fs, script))
+    return out
